@@ -95,6 +95,31 @@ class Ctx:
       raise AnalysisError('vacuity guard: %s: found %d, confirmed minimum %d'
                           % (what, got, minimum))
 
+  def borrow(self, other_pid, rule, as_rule, instances=None):
+    """Rule `rule` of property `other_pid` decides a necessary condition of this property as well: its obligations are
+    evaluated (on the same index) and recorded here under `as_rule`.  A rule that cannot be evaluated there is simply not
+    borrowed (the other property reports that)."""
+    cache = self.__dict__.setdefault('_borrowed', {})
+    if other_pid not in cache:
+      sub = Ctx.__new__(Ctx)
+      sub.ix, sub.prog = self.ix, self.prog
+      sub.obs, sub.analysis_errors, sub.notes, sub.assumptions, sub.modules_used = [], [], [], [], set()
+      sub._borrowed = cache
+      cache[other_pid] = sub
+      try:
+        importlib.import_module('ginsa.rules.' + other_pid.lower()).run(sub)
+      except AnalysisError:
+        pass
+    sub = cache[other_pid]
+    n = 0
+    for o in sub.obs:
+      if o.rule == rule and (instances is None or o.instance in instances):
+        self.obs.append(Ob(as_rule, o.construct, o.ok, o.what, o.loc, o.sites, o.instance, o.path, o.facts))
+        n += 1
+    for a in sub.assumptions:
+      self.assume(a)
+    return n
+
   def func(self, qual):
     f = self.ix.func(qual)
     self.modules_used.add(f.module.name)
